@@ -8,6 +8,7 @@ open Emboss.Fmt
 #print axioms C11_table_normal
 #print axioms C11_format_factors_partial
 #print axioms C11_format_fixed_point_partial
+#print axioms C11_layout_passes_idempotent
 #print axioms C11_sanity_agrees
 #print axioms C11_sanity_reports_first_difference
 #print axioms C11_sanity_count_differs
